@@ -95,12 +95,40 @@ func formatEnumMemberName(name string) string {
 		return "NONE"
 	}
 
-	return tools.UpperSnakeCase(name)
+	memberName := tools.UpperSnakeCase(identifierCharacters(name))
+	if strings.HasPrefix(memberName, "N_") && len(name) > 0 && name[0] >= '0' && name[0] <= '9' {
+		// `1h`: N1H rather than N_1H
+		memberName = "N" + strings.TrimPrefix(memberName, "N_")
+	}
+
+	return memberName
 }
 
 func formatIdentifier(name string) string {
-	name = strings.TrimLeft(name, "$_")
+	name = strings.TrimLeft(identifierCharacters(name), "$_")
 	return escapeKeyword(tools.SnakeCase(escapeIdentifier(name)))
+}
+
+// identifierCharacters turns a wire name into something that can be written as
+// an identifier: `@type`, `a.b`, `1st` are legal property names.
+func identifierCharacters(name string) string {
+	sanitized := strings.Map(func(char rune) rune {
+		switch {
+		case char >= 'a' && char <= 'z', char >= 'A' && char <= 'Z', char >= '0' && char <= '9':
+			return char
+		case char == '_', char == '-', char == ' ', char == '$':
+			// understood by the case conversions (or trimmed)
+			return char
+		}
+
+		return '_'
+	}, name)
+
+	if trimmed := strings.TrimLeft(sanitized, "$_"); trimmed != "" && trimmed[0] >= '0' && trimmed[0] <= '9' {
+		return "n" + trimmed
+	}
+
+	return sanitized
 }
 
 func formatFunctionName(name string) string {
